@@ -104,8 +104,12 @@ pub fn run_eval<'a>(t: &Term<'a>, cap: usize) -> Result<(Final, Term<'a>, usize)
     guarded(|| {
         let mut cur = t.clone();
         let mut n = 0usize;
+        let t0 = std::time::Instant::now();
         loop {
             if n >= cap { return (Final::Cap, cur, n); }
+            // wall-clock guard (terms that grow at every step make single steps slow): reported as a
+            // time-out (step count usize::MAX), which the comparison with the model skips
+            if n % 16 == 15 && t0.elapsed().as_secs() >= 8 { return (Final::Cap, cur, usize::MAX); }
             match step(&cur) {
                 Some(next) => { cur = next; n += 1; }
                 None => break,
